@@ -509,7 +509,7 @@ def check_contacts(chk, fi: FuncInfo, loop: ast.For, m: PairsModel, eq_fields) -
             "same-residue-identity",
             fi.site(site),
             "the same-residue skip compares chain, number and insertion code",
-            f"the same-residue skip compares only {sorted(attrs)}: two different residues that share them (insertion codes {'' if 'icode' in missing else 'aside'}, label vs author numbering) are treated as one and every contact between them is dropped",
+            f"the same-residue skip compares only {sorted(attrs)}: two different residues that share them {'(e.g. 12 and 12A, which differ only in the insertion code)' if 'icode' in missing else '(label vs author numbering)'} are treated as one and every contact between them is dropped",
             K(fi, "same-residue-partial"),
             expected=["chain", "number", "icode"],
             found=sorted(attrs),
